@@ -458,63 +458,90 @@ Definition apply_effs (l : list eff) (s : rstate) : rstate := fold_left apply_ef
 Definition eff_update_head (c : Z) (s : rstate) : list eff :=
   match r_head s with HDet _ => [FSetHead c] | HSym b => [FSetRef b c] end.
 
-(* the stores of a worktree update driven by checkoutChange, one path at a time *)
-Definition eff_checkout (t ix : fmap) (p : bytes) : list eff :=
-  match lookup p ix with
-  | None => [FRemove p]
-  | Some _ => match lookup p t with Some e => [FWrite p e] | None => [] end
+(* the stores of the checkoutChange fold, path by path, in the order of the
+   fold: an existing file is removed before it is rewritten; the fold stops
+   where checkoutChange fails *)
+Fixpoint eff_checkout_fold (t : fmap) (l : list bytes) (ix w : fmap) : list eff :=
+  match l with
+  | [] => []
+  | p :: r =>
+    match lookup p ix with
+    | None => FRemove p :: eff_checkout_fold t r ix (remove p w)
+    | Some _ =>
+      match lookup p t with
+      | None => []
+      | Some e =>
+        (if is_some (lookup p w) then [FRemove p] else [])
+        ++ FWrite p e :: eff_checkout_fold t r (insert p e (remove p ix)) (insert p e (remove p w))
+      end
+    end
   end.
 
-(* the stores of the operations whose refusals were all decided (no error
-   result), in program order *)
-Definition effects (o : xop) (s : rstate) : list eff :=
-  match o, fst (xstep o s) with
-  | _, Some _ => []
-  | XMerge t _, None => eff_update_head t s
-  | XAdd _, None | XAddAll, None => [FSetIndex (r_idx (snd (xstep o s)))]
-  | XCommit c, None =>
-    (if cm_all c then [FSetIndex (auto_add s)] else [])
-    ++ (let s1 := if cm_all c then w_idx s (auto_add s) else s in
-        let parents := if cm_amend c
-                       then match rhead_commit s1 with
-                            | Some h => match rcommit s1 h with Some k => c_parents k | None => [] end
-                            | None => [] end
-                       else match rhead_commit s1 with Some h => [h] | None => [] end in
-        FAddCommit (mkCmt (r_idx s1) parents) :: eff_update_head (Z.of_nat (List.length (r_commits s))) s1)
-  | XRestore _ wk files, None =>
-    match rhead_commit s, rhead_tree s with
-    | Some c, HTTree t =>
-      let ch := filter (in_files files) (changed_paths (r_idx s) t) in
-      let ix := fold_left (reset_index_step t) ch (r_idx s) in
-      eff_update_head c s ++ [FSetIndex ix]
-      ++ (if wk then
-            flat_map (eff_checkout t ix)
-                     (filter (fun p => in_files files p && is_some (lookup p ix)) (changed_paths (r_wt s) ix))
-            ++ [FSetIndex ix]
+(* resetWorktree / step 2 of resetWorktreeToTree: the files, then the index
+   rebuilt by the index builder is stored again *)
+Definition eff_worktree (t : fmap) (l : list bytes) (ix w : fmap) : list eff :=
+  eff_checkout_fold t l ix w
+  ++ [FSetIndex (fst (snd (fold_left (checkout_change t) l (None, (ix, w)))))].
+
+Definition eff_restore (wk : bool) (files : list bytes) (s : rstate) : list eff :=
+  match rhead_commit s with
+  | None => []
+  | Some c =>
+    match rtree_of s c with
+    | None => []
+    | Some t =>
+      let ix := fold_left (reset_index_step t) (filter (in_files files) (changed_paths (r_idx s) t)) (r_idx s) in
+      eff_update_head c s ++ FSetIndex ix
+      :: (if wk
+          then eff_worktree t (filter (fun p => in_files files p && is_some (lookup p ix)) (changed_paths (r_wt s) ix))
+                            ix (r_wt s)
           else [])
-    | _, _ => []
     end
-  | XPull e, None =>
-    match pull_pre e s with
-    | (None, (rc, s1)) =>
-      match rtree_of s1 rc with
-      | Some t =>
-        map (fun nc => FSetRef (tracking_name (fst nc)) (snd nc)) (pe_refs e)
-        ++ eff_update_head rc s1 ++ eff_update_head rc s1
-        ++ (let ri := reset_index t (r_idx s1) in
-            FSetIndex (fst ri)
-            :: match snd ri with
-               | [] => []
-               | _ => flat_map (eff_checkout t (fst ri))
-                               (filter (fun p => existsb (beqb p) (snd ri)) (changed_paths (r_wt s1) (fst ri)))
-                      ++ [FSetIndex (fst ri)]
-               end)
-      | None => []
-      end
-    | _ => []
-    end
-  | _, None => []
   end.
+
+Definition eff_commit (o : copt) (s s' : rstate) : list eff :=
+  (if cm_all o then [FSetIndex (auto_add s)] else [])
+  ++ FAddCommit (last (r_commits s') (mkCmt [] []))
+  :: eff_update_head (Z.of_nat (List.length (r_commits s))) s.
+
+Definition eff_pull (e : penv) (s : rstate) : list eff :=
+  match pull_pre e s with
+  | (None, (rc, s1)) =>
+    match rtree_of s1 rc with
+    | Some t =>
+      let ri := reset_index t (r_idx s1) in
+      map (fun nc => FSetRef (tracking_name (fst nc)) (snd nc)) (pe_refs e)
+      ++ eff_update_head rc s1 ++ eff_update_head rc s1
+      ++ FSetIndex (fst ri)
+      :: match snd ri with
+         | [] => []
+         | _ => eff_worktree t (filter (fun p => existsb (beqb p) (snd ri)) (changed_paths (r_wt s1) (fst ri)))
+                             (fst ri) (r_wt s1)
+         end
+    | None => []
+    end
+  | _ => []
+  end.
+
+(* the stores of an operation whose refusals were all decided (no error
+   result), in program order; a refused operation of the model has none after
+   its last test *)
+Definition effects (o : xop) (s : rstate) : list eff :=
+  match fst (xstep o s) with
+  | Some _ => []
+  | None =>
+    match o with
+    | XMerge t _ => eff_update_head t s
+    | XAdd _ | XAddAll => [FSetIndex (r_idx (snd (xstep o s)))]
+    | XCommit c => eff_commit c s (snd (xstep o s))
+    | XRestore _ wk files => eff_restore wk files s
+    | XPull e => eff_pull e s
+    | XAddBad | XWrite _ _ | XRm _ => []
+    end
+  end.
+
+(* the repository after a fault that lets the first j stores through *)
+Definition after_fault (j : nat) (o : xop) (s : rstate) : rstate := apply_effs (firstn j (effects o s)) s.
 
 (* ---------- observables of the correspondence *)
 
@@ -567,6 +594,13 @@ Definition xnorm_op (o : xop) : xop :=
   | XPull e => XPull (mkPE (pe_conf e) (pe_reach e) (of_list (pe_refs e)) (pe_head e) (pe_refname e))
   | o => o
   end.
+
+(* fault suite: the snapshot after every prefix of the stores of the last op *)
+Definition c29ops_prefixes (s : rstate) (ops : list xop) (o : xop) : out :=
+  let s0 := xnorm s in
+  let s1 := fold_left (fun st op => snd (xstep op st)) (map xnorm_op ops) s0 in
+  let o1 := xnorm_op o in
+  OList (map (fun j => xsnap (after_fault j o1 s1)) (seq 0 (S (List.length (effects o1 s1))))).
 
 (* correspondence entry point *)
 Definition c29ops_run (s : rstate) (ops : list xop) : out :=
